@@ -28,6 +28,7 @@ STUB_SOURCES = {
     "xdsl.context": "xdsl_passes.py",
     "xdsl.utils.exceptions": "xdsl_utils_exceptions.py",
     "xdsl.parser": "xdsl_parser.py",
+    "xdsl.dialects.affine": "xdsl_dialects_affine.py",
 }
 
 
